@@ -23,11 +23,27 @@ impl Compile for ClassBody {
     fn compile(&self, state: &CompilationState) -> Result<Vec<CompiledItem>, anyhow::Error> {
         let mut result = vec![];
 
+        // The methods and the constructor are made first: what they capture by name (a
+        // module-level `n`, say) is looked up while the object's frame does not hold a field of
+        // that name yet.
         for feature in &self.features {
-            result.append(&mut feature.compile(state)?);
+            if let ClassFeature::Function(..) = feature {
+                result.append(&mut feature.compile(state)?);
+            }
         }
 
-        result.append(&mut self.constructor.compile(state)?);
+        let (mut make_constructor, mut construct) =
+            self.constructor.compile_in_two_steps(state)?;
+
+        result.append(&mut make_constructor);
+
+        for feature in &self.features {
+            if let ClassFeature::Variable(..) = feature {
+                result.append(&mut feature.compile(state)?);
+            }
+        }
+
+        result.append(&mut construct);
 
         result.push(instruction!(ret));
 
